@@ -1,6 +1,9 @@
 package ast
 
-import "fmt"
+import (
+	"fmt"
+	"reflect"
+)
 
 // Visitor Enter method is invoked for each node encountered by Walk.
 // If the result visitor w is not nil, Walk visits each of the children
@@ -16,7 +19,7 @@ type Visitor interface {
 // v for each of the non-nil children of node, followed by a call
 // of v.Exit(node).
 func Walk(v Visitor, n Node) {
-	if n == nil {
+	if n == nil || isNilNode(n) {
 		return
 	}
 	if v = v.Enter(n); v == nil {
@@ -217,4 +220,12 @@ func Walk(v Visitor, n Node) {
 	default:
 		panic(fmt.Sprintf("Walk: unexpected node type %T", n))
 	}
+}
+
+// isNilNode reports whether n holds a nil pointer: optional children
+// (a function's name, a branch label, a catch clause, ...) are typed fields,
+// so an absent one arrives here as a non-nil interface.
+func isNilNode(n Node) bool {
+	rv := reflect.ValueOf(n)
+	return rv.Kind() == reflect.Ptr && rv.IsNil()
 }
